@@ -543,7 +543,7 @@ func boolHelperCall(c callSite) *ssa.Function {
 // paramFor: the parameter of g that receives argument value v at call c (nil if none).
 func paramFor(g *ssa.Function, c callSite, v ssa.Value) *ssa.Parameter {
 	for i, a := range c.Common.Args {
-		if a == v && i < len(g.Params) {
+		if (a == v || keyLike(a, v)) && i < len(g.Params) {
 			return g.Params[i]
 		}
 	}
